@@ -20,7 +20,7 @@ TRUSTED = [
     "fairness of the real bit generator is assumed (the property's own premise)",
 ]
 ASSUMPTIONS = ["integer outcomes in rolls"]
-EXPLANATION = "theorems C10_choices_fair, C10_hroll_*, C10_proll_distribution, C10_proll_matches_rolls_with_counts, C10_one_draw_per_die"
+EXPLANATION = "theorems C10_choices_fair, C10_hroll_*, C10_proll_distribution, C10_proll_matches_rolls_with_counts, C10_one_draw_per_die, C10_stream_* (generator-threading view: one answer per die, rest of the stream untouched, equal streams reproduce the roll, same distribution as the weighted-list model)"
 
 
 def _h(items, mixed=False):
@@ -41,11 +41,36 @@ class _Fixed(random.Random):
         return self.value
 
 
+class _Seq(random.Random):
+    """a generator whose `random()` lands in the middle of the scripted integer part `u` of `random() * total`"""
+
+    def __init__(self, fracs):
+        super().__init__(0)
+        self.fracs = list(fracs)
+        self.asked = 0
+
+    def random(self):
+        self.asked += 1
+        return self.fracs.pop(0)
+
+
 def impl(case):
     import dyce.rng
     from dyce import P
 
     k = case["k"]
+    if k == "stream":
+        p = P(*[_h(d) for d in case["dice"]])
+        us = list(case["answers"])
+        live = [h for h in p if h.total]
+        gen = _Seq([(u + 0.5) / h.total for u, h in zip(us, live)] + [0.5] * (len(us) - len(live)))
+        saved = dyce.rng.RNG
+        try:
+            dyce.rng.RNG = gen
+            roll = p.roll()
+        finally:
+            dyce.rng.RNG = saved
+        return "ok " + RC.show_vals(roll) + (" | " + " ".join(str(u) for u in us[gen.asked:])).rstrip()
     if k == "hroll":
         h = _h(case["h"], case.get("mixed", False))
         agg, flags = Counter(), set()
@@ -124,6 +149,14 @@ def model(case):
         for h in p:
             toks += RC.hist_tokens(list(h.items()))
         return " ".join(["PROLL"] + toks)
+    if k == "stream":
+        from dyce import P
+
+        p = P(*[_h(d) for d in case["dice"]])
+        toks = [str(len(p))]
+        for h in p:
+            toks += RC.hist_tokens(list(h.items()))
+        return " ".join(["PROLLS"] + toks + [str(len(case["answers"]))] + [str(u) for u in case["answers"]])
     if k == "choices":
         return " ".join(["PICKALL", str(len(case["weights"]))] + [str(w) for w in case["weights"]])
     return None
@@ -148,6 +181,17 @@ def oracle(case):
         for i, w in enumerate(case["weights"]):
             picks += [i] * w
         return ("ok " + " ".join(str(x) for x in picks)).strip()
+    if k == "stream":
+        from dyce import P
+
+        # first principles: the u-th entry of the die's faces written out count times each, one answer per live die
+        kept = list(P(*[_h(d) for d in case["dice"]]))  # P's constructor drops empty dice (C05 / C19 territory)
+        live = [hh for hh in kept if hh.total]
+        faces = []
+        for u, hh in zip(case["answers"], live):
+            faces.append([o for o, c in sorted(hh.items()) for _ in range(c)][u])
+        n0 = len(kept) - len(live)
+        return "ok " + RC.show_vals(sorted(faces + [0] * n0)) + (" | " + " ".join(str(u) for u in case["answers"][len(live):])).rstrip()
     return "ok same"
 
 
@@ -156,7 +200,7 @@ def classify(case, got):
 
 
 def nontrivial(case, got):
-    return got.startswith("ok") and (got.count("*") >= 2 or case["k"] in ("choices", "swap"))
+    return got.startswith("ok") and (got.count("*") >= 2 or case["k"] in ("choices", "swap", "stream"))
 
 
 def describe(case):
@@ -164,6 +208,8 @@ def describe(case):
 
 
 def shrink(case):
+    if case["k"] == "stream":
+        return  # the scripted answers are tied to the dice (one in-range answer per live die)
     for key in ("h",):
         if key in case:
             h = case[key]
@@ -221,6 +267,14 @@ def generate(rnd, tier, scale):
                 else:
                     dice.append(_rand_h(rnd))
             yield dict(k="proll", dice=dice)
+        elif r < 0.86:
+            # one scripted answer per die (pool order as P sorts its dice) plus answers that must be left untouched
+            from dyce import P
+
+            dice = [[[o, c] for o, c in _rand_h(rnd)] for _ in range(rnd.randint(1, 4))]
+            dice = [[[o, c if c < 2**40 else c % 7 + 1] for o, c in d] for d in dice]
+            live = [h for h in P(*[_h(d) for d in dice]) if h.total]
+            yield dict(k="stream", dice=dice, answers=[rnd.randrange(h.total) for h in live] + [rnd.randrange(9) for _ in range(rnd.randint(0, 2))])
         elif r < 0.92:
             yield dict(k="choices", weights=[rnd.choice([0, 0, 1, 1, 2, 3, 5]) for _ in range(rnd.randint(1, 6))] + [1], frac=rnd.choice([0.001, 0.5, 0.999]))  # never exactly on a boundary: u/tot*tot is not u in floats
         else:
